@@ -32,9 +32,11 @@ PHIS = (0.0, 2.0 ** -53, 0.1, 0.3, 0.5, 0.9, 1.0 - 2.0 ** -53, 1.0)
 
 
 def gen_graph(prng):
-    n = prng.randrange(1, 13)
+    n = prng.randrange(1, 13) if prng.random() > 0.04 else prng.choice((17, 33, 64, 65, 100, 130))
     kind = prng.choice(("gnp", "gnp", "star", "path", "complete", "forest", "empty"))
-    labels = list(range(n)) if prng.random() < 0.5 else prng.sample(range(0, 60), n)
+    if n > 12 and kind == "complete":
+        kind = "gnp"
+    labels = list(range(n)) if prng.random() < 0.5 else prng.sample(range(0, max(60, 4 * n)), n)
     edges = []
     if kind == "gnp":
         p = prng.choice((0.15, 0.3, 0.6))
